@@ -379,4 +379,82 @@ theorem gen_readToken (buf : List Byte) : ∀ (f line : Nat) (r : List Byte), r.
                 cases numLoop [] false (c :: r) <;> rfl
               · simp [c45, cd]
 
+
+/-! ### `syntaxError` -/
+
+def notBreak (c : Byte) : Bool := !(c == 10 || c == 13)
+
+theorem tw_break (c : Byte) (v : List Byte) (h : c = 10 ∨ c = 13) :
+    (c :: v).takeWhile notBreak = [] ∧ (c :: v).dropWhile notBreak = c :: v := by
+  rcases h with h | h <;> subst h <;> simp [List.takeWhile, List.dropWhile, notBreak]
+
+theorem tw_non (c : Byte) (v : List Byte) (h10 : c ≠ 10) (h13 : c ≠ 13) :
+    (c :: v).takeWhile notBreak = c :: v.takeWhile notBreak ∧ (c :: v).dropWhile notBreak = v.dropWhile notBreak := by
+  have : notBreak c = true := by simp [notBreak, h10, h13]
+  simp [List.takeWhile, List.dropWhile, this]
+
+theorem take_drop_len (v : List Byte) : (v.takeWhile notBreak).length + (v.dropWhile notBreak).length = v.length := by
+  induction v with
+  | nil => rfl
+  | cons c v ih =>
+    by_cases h : c = 10 ∨ c = 13
+    · rw [(tw_break c v h).1, (tw_break c v h).2]; simp
+    · have h10 : c ≠ 10 := fun e => h (Or.inl e)
+      have h13 : c ≠ 13 := fun e => h (Or.inr e)
+      rw [(tw_non c v h10 h13).1, (tw_non c v h10 h13).2]; simp; omega
+
+theorem drop_len_le (v : List Byte) : (v.dropWhile notBreak).length ≤ v.length := by
+  have := take_drop_len v; omega
+
+/-- the translated `syntaxError` (the backwards walk to the previous CR / LF or to the start of the text; written with a
+    counter or with a second pointer): errorLine = pos.line, errorColumn = 1 + number of bytes back to the line start -/
+theorem gen_syntaxError (line : Nat) (back : List Byte) (f : Nat) (hf : back.length < f) :
+    JsonCode.syntaxError f line back = .ok (line, 1 + (back.takeWhile notBreak).length) := by
+  first
+  | -- the column is counted while walking back
+    have hA : ∀ (f col : Nat) (v : List Byte), v.length < f →
+        JsonCode.colL0 f line back col v = .ok (line, col + (v.takeWhile notBreak).length) := by
+      intro f
+      induction f with
+      | zero => intro col v h; omega
+      | succ f ih =>
+        intro col v h
+        unfold JsonCode.colL0
+        cases v with
+        | nil => simp
+        | cons c v =>
+          have h1 : v.length < f := by simp at h; omega
+          simp only [Cxx.rdR, List.drop, ih _ _ h1]
+          by_cases c10 : c = 10
+          · simp [c10, (tw_break 10 v (Or.inl rfl)).1]
+          · by_cases c13 : c = 13
+            · simp [c13, (tw_break 13 v (Or.inr rfl)).1]
+            · simp [c10, c13, (tw_non c v c10 c13).1]; omega
+    unfold JsonCode.syntaxError
+    rw [hA f 1 back hf]
+  | -- the line start is searched with a second pointer, the column is the distance
+    have hB : ∀ (f : Nat) (v : List Byte), v.length < f →
+        JsonCode.colL0 f line back v = .ok (line, (back.length - (v.dropWhile notBreak).length) + 1) := by
+      intro f
+      induction f with
+      | zero => intro v h; omega
+      | succ f ih =>
+        intro v h
+        unfold JsonCode.colL0
+        cases v with
+        | nil => simp
+        | cons c v =>
+          have h1 : v.length < f := by simp at h; omega
+          simp only [Cxx.rdR, List.drop, ih _ h1]
+          by_cases c10 : c = 10
+          · simp [c10, (tw_break 10 v (Or.inl rfl)).2]
+          · by_cases c13 : c = 13
+            · simp [c13, (tw_break 13 v (Or.inr rfl)).2]
+            · simp [c10, c13, (tw_non c v c10 c13).2]
+    unfold JsonCode.syntaxError
+    rw [hB f back hf]
+    have := take_drop_len back
+    congr 2
+    omega
+
 end Nstd.Json
